@@ -5,6 +5,7 @@
 import MitmVerif.Model.C14
 import MitmVerif.Lemmas.C14
 import MitmVerif.Lemmas.C14Hist
+import MitmVerif.Lemmas.C14_RefL
 namespace MitmVerif.Props.C14
 open MitmVerif MitmVerif.C14 MitmVerif.C14.Lemmas MitmVerif.C14.Hist
 
@@ -339,6 +340,45 @@ theorem send_after_half_close (L : Laws K) (env : Env K) (child : Child) (s t : 
   obtain ⟨c', _, _, _, h4, h5⟩ := client_receives_exactly L
     ({ addRouted t (.other n) with toChild := t.toChild ++ [.other n] } : St K) c d htls hup hacc
   exact ⟨h5, h4⟩
+
+/-! ### the driver's framed reference codec is a lawful instance (Lemmas/C14_RefL.lean) -/
+
+/-- the environment the driver runs the model in: the tls_start hook hands over a fresh reference-codec object -/
+def refEnv (client : Bool) (parse : Bytes → Hello) (serverFirst : Bool) : Env RefL.refCodec :=
+  { mkTls := some (RefL.refInit client), parse := parse, serverFirst := serverFirst }
+
+private theorem refEnv_fresh (client : Bool) (parse : Bytes → Hello) (sf : Bool) :
+    ∀ c, (refEnv client parse sf).mkTls = some c → Fresh RefL.refLaws c := by
+  intro c hc
+  simp only [refEnv] at hc
+  injection hc with hc
+  subst hc
+  exact RefL.refInit_fresh client
+
+/-- **ref_codec_lawful.**  The framed record codec the compiled driver uses in the differential run (records
+    `[type][len][payload]`, handshake / application data / close_notify / ignorable, framed byte by byte, over the subtype of
+    consistent states) satisfies the stream-faithfulness law, and the object handed over by the hook is fresh — so the
+    correspondence run exercises the layer model with a PROVED-lawful engine, not only with the pass-through one. -/
+theorem ref_codec_lawful : ∃ L : Laws RefL.refCodec, ∀ client, Fresh L (RefL.refInit client) :=
+  ⟨RefL.refLaws, fun client => RefL.refInit_fresh client⟩
+
+/-- `child_stream_exact` for the reference codec: no law hypothesis, no freshness hypothesis left. -/
+theorem child_stream_exact_ref (client : Bool) (parse : Bytes → Hello) (sf : Bool) (child : Child) (sd : Side) (evs : List Ev)
+    (hc : (run (refEnv client parse sf) child (init RefL.refCodec sd) evs).crashed = false) :
+    let s := run (refEnv client parse sf) child (init RefL.refCodec sd) evs
+    (∃ t, s.routed = s.toChild ++ s.queue ++ t ∧ (s.errored = false → t = []))
+    ∧ (∃ n rest, plainOf s.toChild ++ rest = (RefL.dec (dataOf evs)).1.take n)
+    ∧ (∀ c, s.tls = some c → c.1.fed = dataOf evs ∧ plainOf s.routed = (RefL.dec (dataOf evs)).1.take c.1.m.plain.length) := by
+  obtain ⟨h1, _, h3, h4, _⟩ := child_stream_exact RefL.refLaws (refEnv client parse sf) child (refEnv_fresh client parse sf) sd evs hc
+  exact ⟨h1, h3, h4⟩
+
+/-- `peer_stream_exact` for the reference codec: what the peer reads out of the emitted records (`RefL.enc`: the payloads of the
+    application-data records) is exactly what `sendall` accepted, for every history. -/
+theorem peer_stream_exact_ref (client : Bool) (parse : Bytes → Hello) (sf : Bool) (child : Child) (sd : Side) (evs : List Ev)
+    (hc : (run (refEnv client parse sf) child (init RefL.refCodec sd) evs).crashed = false) :
+    RefL.enc (cipherOf (run (refEnv client parse sf) child (init RefL.refCodec sd) evs).up)
+      = (run (refEnv client parse sf) child (init RefL.refCodec sd) evs).accepted :=
+  (peer_stream_exact RefL.refLaws (refEnv client parse sf) child (refEnv_fresh client parse sf) sd evs hc).1
 
 /-! ### non-vacuity: the law is satisfiable (a pass-through engine), and the theorems apply to it -/
 
